@@ -27,8 +27,10 @@ ALL = {
     'C03': 'p_c03',
     'C04': 'p_c04',
     'C05': 'p_c05',
+    'C06': 'p_c06',
     'C07': 'p_c07',
     'C09': 'p_c09',
+    'C10': 'p_c10',
 }
 
 if __name__ == '__main__':
